@@ -397,3 +397,116 @@ class Analyzer:
                            % (ident, fam.tags[intended], toks[ia[1]][2], fam.tags[ta],
                               fam.tags[intended], want)})
         return out
+
+
+# ----------------------------------------------------------------------------- PS-2
+ALLOWED_UNTAGGED = {("Nu5", "Nu6_3"), ("nu5_activation", "nu6_3_activation"),
+                    ("NU5", "NU6_3")}
+
+
+def _bound_in(toks, s, e, ident):
+    """the identifier is introduced inside the segment (let / closure parameter / for pattern)"""
+    i = s
+    depth_pipe = False
+    while i <= e:
+        k, t, _ln = toks[i]
+        if t == ident and k == "id":
+            j = i - 1
+            while j >= s and toks[j][1] in ("mut", "(", ",", "&", "ref"):
+                j -= 1
+            if j >= s and toks[j][1] in ("let", "for", "|"):
+                return True
+            # inside closure parameter pipes: |a, (b, c)|
+            back = [toks[x][1] for x in range(max(s, i - 12), i)]
+            if back.count("|") % 2 == 1:
+                return True
+            # in the pattern of a match arm: before the segment's first `=>`
+            arrow = next((x for x in range(s, e + 1) if toks[x][1] == "=>"), None)
+            if arrow is not None and i < arrow:
+                return True
+        i += 1
+    return False
+
+
+def untagged_differences(an, relpath, A_tag="O", B_tag="I", strip_tests=True):
+    """Orchard/Ironwood sibling segments must be equal token for token once the pool words are
+    abstracted.  For every segment tagged only with B_tag, the most similar same-shaped segment
+    tagged only with A_tag in the same function is its sibling; differing untagged IDENTIFIERS are
+    reported unless the identifier is bound inside the segment (a consistently renamed local) or
+    the pair is a known pool-specific name pair.  Returns (findings, pairs examined)."""
+    p = os.path.join(an.repo, relpath)
+    try:
+        src = open(p, encoding="utf-8", errors="replace").read()
+    except OSError:
+        return None, 0
+    if strip_tests:
+        src = strip_test_modules(src)
+    toks = lex(src)
+    fam = an.fam
+    out = []
+    npairs = 0
+    for name, a, b in fn_items(toks):
+        mem = []
+        for (s, e) in segments(toks, a, b):
+            if e - s + 1 < 6:
+                continue
+            tags, skel = [], []
+            for i in range(s, e + 1):
+                k, t, _ln = toks[i]
+                tg = fam.tag_of(t) if k == "id" else None
+                if tg and i + 1 <= e and toks[i + 1][1] == "::" and t.islower() and t in fam.tags.values():
+                    tg = None
+                tags.append(tg)
+                skel.append(fam.abstract(t) if tg else t)
+            ts = {t for t in tags if t}
+            if len(ts) != 1:
+                continue
+            shape = tuple(toks[i][0] if toks[i][0] in ("id", "num", "str", "life") else toks[i][1]
+                          for i in range(s, e + 1))
+            mem.append((s, e, skel, tags, shape, next(iter(ts))))
+        used = {A_tag: set(), B_tag: set()}
+        for m in mem:
+            if m[5] in used:
+                used[m[5]].update(toks[i][1] for i in range(m[0], m[1] + 1) if toks[i][0] == "id")
+        for Bm in [m for m in mem if m[5] == B_tag]:
+            best = None
+            for Am in [m for m in mem if m[5] == A_tag and m[4] == Bm[4]]:
+                if (Am[0] <= Bm[0] and Bm[1] <= Am[1]) or (Bm[0] <= Am[0] and Am[1] <= Bm[1]):
+                    continue
+                n = len(Am[2])
+                same = sum(1 for u, v in zip(Am[2], Bm[2]) if u == v)
+                if same < n * 0.8:
+                    continue
+                if best is None or same > best[0]:
+                    best = (same, Am)
+            if best is None:
+                continue
+            npairs += 1
+            Am = best[1]
+            for i in range(len(Am[2])):
+                if Am[2][i] == Bm[2][i] or Am[3][i] or Bm[3][i]:
+                    continue
+                ka, ta_, la = toks[Am[0] + i]
+                kb, tb_, lb = toks[Bm[0] + i]
+                if ka != "id" or kb != "id":
+                    continue            # literals / strings: column indices, messages
+                if (ta_, tb_) in ALLOWED_UNTAGGED or (tb_, ta_) in ALLOWED_UNTAGGED:
+                    continue
+                if _bound_in(toks, Am[0], Am[1], ta_) and _bound_in(toks, Bm[0], Bm[1], tb_):
+                    continue
+                # each name is private to its own pool's code in this function and is a local of it
+                if ta_ not in used[B_tag] and tb_ not in used[A_tag] and \
+                        _bound_in(toks, a, b, ta_) and _bound_in(toks, a, b, tb_):
+                    continue
+                out.append({"file": relpath, "fn": name, "line": lb, "ident": tb_, "expected": ta_,
+                            "sibling_line": la,
+                            "msg": "`%s` in the %s code where its %s sibling (line %d) has `%s`: the two "
+                                   "are otherwise the same code with the pool renamed"
+                                   % (tb_, fam.tags[B_tag], fam.tags[A_tag], la, ta_)})
+    seen, res = set(), []
+    for f in out:
+        k = (f["fn"], f["ident"], f["line"])
+        if k not in seen:
+            seen.add(k)
+            res.append(f)
+    return res, npairs
